@@ -20,7 +20,7 @@ class TargetError(Exception):
 
 
 VALID_KINDS = ("py", "arr1")
-INVALID_KINDS = ("nan", "inf", "-inf", "complex", "vec2", "none")
+INVALID_KINDS = ("nan", "inf", "-inf", "complex", "arr_complex", "vec2", "none")
 HE_INVALID = ("nontuple", "tuple3", "sd_nonpos", "sd_nan", "sd_inf", "sd_none")
 
 
@@ -49,8 +49,8 @@ class HFL(Harness):
             eng.assume(sd.e > 0)
         if kind == "sd_nonpos" and not eng.concrete:
             eng.assume(sd.e <= 0)
-        yim = eng.real("y_im") if kind == "complex" else None
-        if kind == "complex" and not eng.concrete:
+        yim = eng.real("y_im") if kind in ("complex", "arr_complex") else None
+        if kind in ("complex", "arr_complex") and not eng.concrete:
             eng.assume(yim.e != 0)
 
         def value():
@@ -66,6 +66,8 @@ class HFL(Harness):
                 return -math.inf
             if kind == "complex":
                 return complex(1.5, 2.0) if not eng.concrete else complex(1.5, float(yim) if float(yim) != 0 else 1.0)
+            if kind == "arr_complex":        # a complex value in a 1-element array (eigenvalue / sqrt / FFT results)
+                return to_obj(np.array([complex(1.5, 2.0)], dtype=object)) if not eng.concrete else np.array([complex(1.5, float(yim) if float(yim) != 0 else 1.0)])
             if kind == "vec2":
                 return np.array([1.0, 2.0])
             if kind == "none":
